@@ -432,12 +432,24 @@ def main(argv=None):
 def finish(ctx, mod, write_evidence=True):
     known = load_known_findings(ctx.prop)
     new, listed = [], []
+    def lookup_known(sig):
+        if sig in known:
+            return sig
+        for pat in known:
+            if pat.endswith('*') and sig.startswith(pat[:-1]):
+                return pat
+        return None
     for v in ctx.violations:
-        (listed if v['sig'] in known else new).append(v)
+        pat = lookup_known(v['sig'])
+        if pat is None:
+            new.append(v)
+        else:
+            v['known'] = pat
+            listed.append(v)
 
     lines = []
     for v in listed:
-        lines.append(f'KNOWN-FINDING: property={ctx.prop} {known[v["sig"]]} [sig={v["sig"]}]')
+        lines.append(f'KNOWN-FINDING: property={ctx.prop} {known[v["known"]]} [sig={v["sig"]}]')
     for v in new:
         rdir = os.path.join(VERIF_DIR, 'replays', ctx.prop)
         os.makedirs(rdir, exist_ok=True)
